@@ -1,5 +1,6 @@
 """C04: the result depends only on names and residues, not on how they are presented."""
 import os
+import re
 
 from vf import common, fmt, gen, kal
 from vf.build import build
@@ -93,6 +94,16 @@ def presentations(ck, rng, recs, paths, base_rows, tier):
     mrows = gen.insert_gaps(rng, seqs, rng.choice([0.1, 1.0, 6.0]), "-")
     out.append(("msf_gap%s" % rng.choice([".", "~"]),
                 [f(fmt.write_msf(list(zip(names, mrows)), protein=True, width=rng.choice([50, 60, 30]), group=rng.choice([10, 0]), gap=rng.choice([".", "~"])))], None))
+    # unwrapped block formats with very long lines (mostly-gap alignment, one block)
+    maxlen = max(len(x) for x in seqs)
+    if maxlen * len(seqs) < 4000:
+        wide_rate = max(2.0, 9500.0 / maxlen)
+        wrows = gen.insert_gaps(rng, seqs, wide_rate, "-")
+        W = len(wrows[0])
+        if rng.random() < 0.5:
+            out.append(("clustal_unwrapped_%dcols" % W, [f(fmt.write_clustal(list(zip(names, wrows)), width=W))], None))
+        else:
+            out.append(("msf_unwrapped_%dcols" % W, [f(fmt.write_msf(list(zip(names, wrows)), protein=True, width=W, group=0))], None))
     # multi-file splits
     n = len(recs)
     k = rng.randint(2, min(5, n))
@@ -127,7 +138,7 @@ def presentations(ck, rng, recs, paths, base_rows, tier):
     if tier == "quick":
         keep = rng.sample(out, min(14, len(out)))
         # always keep the split presentations with a one-record / empty part
-        must = [p for p in out if "one_record" in p[0] or "empty" in p[0] or "stdin" in p[0] or "leading_blank" in p[0] or "stray_gap" in p[0] or "plain_then_aligned" in p[0]]
+        must = [p for p in out if "one_record" in p[0] or "empty" in p[0] or "stdin" in p[0] or "leading_blank" in p[0] or "stray_gap" in p[0] or "plain_then_aligned" in p[0] or "unwrapped" in p[0]]
         out = must + [p for p in keep if p not in must][:max(0, 14 - len(must))]
     return out
 
@@ -150,7 +161,7 @@ def run_case(ck, paths, idx, tier):
     for label, files, sin in presentations(ck, rng, recs, paths, base, tier):
         out = ck.tmp(".out")
         r2 = common.kalign_cli(paths, files, args=kal.type_args(word), nthreads=1, out=out, stdin_data=sin)
-        cls = label.split("_rate")[0].split("_sym")[0]
+        cls = re.sub(r"_\d+cols$", "", label.split("_rate")[0].split("_sym")[0])
         c2 = dict(ctx, presentation=label, files=[open(x, "rb").read().decode("latin-1")[:3000] for x in files],
                   stdin=sin.decode("latin-1")[:2000] if sin else None)
         ck.count("presentations")
@@ -182,7 +193,7 @@ def run(ck, tier):
     common.pmap(lambda i: run_case(ck, paths, i, tier), range(n), workers=10)
     ck.rule = ("record sets (DNA/RNA/protein, 3..30 and 51..120 records, incl. very short sequences under 100..200-character names) re-presented as: aligned FASTA with 0.05..20 gap "
                "characters per residue using - . ~ * _; FASTA line widths 1..5000; blank lines (1..12 leading), trailing blanks, CRLF, missing final newline; gap characters only in a late record, plain part followed by an aligned part; Clustal W/O/Kalign headers with block "
-               "widths 20..120, name padding 1..40, consensus and residue-count columns; MSF with 10-column groups and ./~ gaps; 2..5 files in order, one-record first/last part, "
+               "widths 20..120, name padding 1..40, consensus and residue-count columns; MSF with 10-column groups and ./~ gaps; unwrapped Clustal/MSF with lines of 9000+ characters; 2..5 files in order, one-record first/last part, "
                "empty part, first part or everything on stdin, mixed formats across parts; kalign's own three output formats. Oracle: output bytes equal to the bare one-file FASTA "
                "run. Non-trivial = base alignment contains gaps.")
     ck.assumptions = ["names without whitespace; residues are letters; records keep their order across parts", "tab characters inside sequence lines are not generated"]
